@@ -26,7 +26,7 @@ import TracklibVerif.Drv.Util
                                   `circ[i][e]` (a negative entry = `minCircle` returned `None`) are scalars compared by the model with
                                   `<diameter>` and `<duration>` (the harness passes squared lengths against the squared diameter)
   stopsd q <diameter> <duration> <downsampling> <track> <resampled> <circ2> <circA> <cx> <cy>
-                                → `findStopsGlobalPy`, from the caller's arguments: `<track>` and `<resampled>` (`_` when not asked for)
+                                → `findStopsGlobalPyA` (= `findStopsGlobalPy`, theorem `find_stops_array_form`), from the caller's arguments: `<track>` and `<resampled>` (`_` when not asked for)
                                   are rows `x,y,z,t`; the model chooses the track (`downsampling > 1`), computes the squared planimetric
                                   distances and the durations itself and applies the three tests and the final filter;
                                   `circ2[i][e]` / `circA[i][e]` = squared `2 * radius` of `minCircle` in the row loops / in the final
@@ -157,17 +157,16 @@ def runStopsD (diameter duration ds : Rat) (track resampled circ circA cxs cys :
     else
       let sq : Nat → Rat := fun n => ((n * n : Nat) : Rat)
       let opt : List (List Rat) → Nat → Nat → Option Rat := fun m i e => let v := fn 0 m i e; if v < 0 then none else some v
-      match findStopsGlobalPy (0 : Rat) 1 sq (fun n => (n : Rat)) tr0 rs (opt circ) (opt circA) diameter duration ds with
+      match findStopsGlobalPyA (0 : Rat) 1 sq (fun n => (n : Rat)) tr0 rs (opt circ) (opt circA) diameter duration ds with
       | .error e => showErr e
-      | .ok ids =>
+      | .ok (seg, st, ids) =>
         let f := getFix (0 : Rat) tr
         let p := stopPredTrack (0 : Rat) f (opt circ) diameter duration
         let C := stopsMatrix (0 : Rat) sq p size
         let mat := (List.range size).map (fun i => (List.range size).map (fun j => C i j))
-        let st := stopsReported (0 : Rat) sq p (stopKeepTrack (0 : Rat) f (opt circA) diameter duration) size
         let items := (st.zip ids).map (fun x => s!"{x.1.1}-{x.1.2}:{showRat x.2.1}:{showRat x.2.2.1}:{x.2.2.2}")
         let enc := enclosedB (4 : Rat) f (opt circ) (fn 0 cxs) (fn 0 cys) size
-        s!"{showListList showRat mat} {showList toString (stopsSegmentation (0 : Rat) sq p size)} {joinWith "," items} {showBool enc}"
+        s!"{showListList showRat mat} {showList toString seg} {joinWith "," items} {showBool enc}"
   | _, _ => "bad-request"
 
 def handle (cmd : String) (args : List String) : String :=
